@@ -105,7 +105,7 @@ def pool(seed, tier):
     for ci, c in enumerate(cfgs):
         # two specs share everything but the input values: concurrent calls on one shared module with
         # the same shapes but different data are what a per-module scratch buffer would corrupt
-        variants = [('float64', 2, 2, 0), ('float64', 2, 2, 3), ('float32', 2, 2, 0), ('float64', 1, 3, 1)]
+        variants = [('float64', 2, 2, 0), ('float64', 2, 2, 3), ('float32', 2, 2, 0), ('float64', 1, 3, 1), ('float64', 1, 4, 4)]
         if tier == 'thorough':
             variants.append(('float32', 3, 1, 2))
         for dt, N, C, s in variants:
